@@ -374,6 +374,39 @@ pub fn contexts(tier: Tier) -> Vec<Ctx> {
             add("{{let n=1}}", expr_stmt(block(vec![expr_stmt(block(vec![let_("n", u8l(1))]))])));
             add("{n=3};{let n=4}", expr_stmt(block(vec![expr_stmt(block(vec![assign("n", vec![], u8l(3))])), expr_stmt(block(vec![let_("n", u8l(4))]))])));
         }
+        // every kind of construct as a statement INSIDE a scope that shadows n (a block, a loop body, a
+        // branch, a match arm): whatever the construct does to the compiler's scope stack, the outer n
+        // and m must be the ones read and assigned afterwards
+        {
+            let after = || vec![assign("n", vec![], bin(BinOp::BitXor, n(), u8l(1))), assign("m", vec![], bin(BinOp::BitXor, m(), n()))];
+            let inner: Vec<(&str, Stmt)> = vec![
+                ("match (n,m){(p,q)=>p^q}", expr_stmt(match_(tup(vec![n(), m()]), vec![(Pat::Tup(vec![pvar("p"), pvar("q")]), bin(BinOp::BitXor, var("p"), var("q")))]))),
+                ("match n{w=>w}", expr_stmt(match_(n(), vec![(pvar("w"), var("w"))]))),
+                ("match n{0=>m,w=>w}", expr_stmt(match_(n(), vec![(Pat::Int(0, Some(IntTy::U8)), m()), (pvar("w"), var("w"))]))),
+                ("if b{n}else{m}", expr_stmt(if_(var("b"), vec![expr_stmt(n())], Some(vec![expr_stmt(m())])))),
+                ("for x in a{let n=x}", for_(pvar("x"), var("a"), vec![let_("n", var("x"))])),
+                ("{let m=2}", expr_stmt(block(vec![let_("m", u8l(2))]))),
+                ("let (p,q)=(n,m)", let_pat(Pat::Tup(vec![pvar("p"), pvar("q")]), tup(vec![n(), m()]))),
+                ("b&&{let n=1;n>0}", expr_stmt(bin(BinOp::And, var("b"), block(vec![let_("n", u8l(1)), expr_stmt(bin(BinOp::Gt, n(), u8l(0)))])))),
+                ("a[0]", expr_stmt(index(var("a"), us(0)))),
+            ];
+            for (iname, istmt) in inner {
+                let hosts: Vec<(String, Stmt)> = vec![
+                    (format!("{{let n=77;{iname}}}"), expr_stmt(block(vec![let_("n", u8l(77)), istmt.clone()]))),
+                    (format!("for x in a{{let n=x;{iname}}}"), for_(pvar("x"), var("a"), vec![let_("n", var("x")), istmt.clone()])),
+                    (format!("if b{{let n=77;{iname}}}"), expr_stmt(if_(var("b"), vec![let_("n", u8l(77)), istmt.clone(), expr_stmt(tup(vec![]))], None))),
+                    (
+                        format!("match m{{0=>{{let n=9;{iname}}},_=>{{}}}}"),
+                        expr_stmt(match_(m(), vec![(Pat::Int(0, Some(IntTy::U8)), block(vec![let_("n", u8l(9)), istmt.clone(), expr_stmt(tup(vec![]))])), (Pat::Var("_".into()), block(vec![expr_stmt(tup(vec![]))]))])),
+                    ),
+                ];
+                for (hname, h) in hosts {
+                    let mut stmts = vec![h];
+                    stmts.extend(after());
+                    out.push(Ctx { name: hname, stmts, r: None });
+                }
+            }
+        }
         // zero-width values flowing through bindings, tuples and calls
         out.push(r_is("let u=();(u,n).1".into(), block(vec![let_("u", tup(vec![])), expr_stmt(tupf(tup(vec![var("u"), n()]), 1))]), u8t.clone()));
         out.push(r_is("[n;0] then n".into(), block(vec![let_("z", ex(ExprKind::ArrRep(Box::new(n()), 0))), let_("n", u8l(4)), expr_stmt(bin(BinOp::BitXor, n(), m()))]), u8t.clone()));
